@@ -330,6 +330,34 @@ def Unreferenced (c : Ctl) (ns name : String) : Prop :=
 def Refs (sl : Slice) (ns name : String) : Prop :=
   ∃ ea ∈ sl.addrPairs, ea.1.target = some (ns, name)
 
+theorem PodEff.mono {c c2 : Ctl} {ks ks' : List String} (h : PodEff c c2 ks) (hs : ∀ k ∈ ks, k ∈ ks') : PodEff c c2 ks' :=
+  ⟨h.slices, h.svcs, h.pods, h.nodes, h.smap, h.cache, h.index,
+   fun a k hc => (h.resync a k hc).elim Or.inl (fun hk => Or.inr (hs k hk)), h.sub⟩
+
+/-- the replays a pod update queues when node or service account changed: every slice of the pod's namespace that
+    refers to the pod -/
+theorem idReplays_eq (c : Ctl) (o p : Pod) :
+    ∃ kx : List String, idReplays c o p = kx.map Ev.replay ∧
+      ((o.node ≠ p.node ∨ o.sa ≠ p.sa) → ∀ x ∈ c.slices, x.ns = p.ns → Refs x p.ns p.name → x.key ∈ kx) := by
+  unfold idReplays
+  by_cases h : o.node ≠ p.node ∨ o.sa ≠ p.sa
+  · rw [if_pos h]
+    refine ⟨(c.slices.filter (fun sl => sl.ns = p.ns ∧ sl.eps.any (fun e => e.target = some (p.ns, p.name)))).map (·.key),
+      by rw [List.map_map]; rfl, ?_⟩
+    intro _ x hx hns hr
+    rw [List.mem_map]
+    refine ⟨x, List.mem_filter.mpr ⟨hx, ?_⟩, rfl⟩
+    obtain ⟨ea, hea, htg⟩ := hr
+    unfold Slice.addrPairs at hea
+    obtain ⟨e, he, hea'⟩ := List.mem_flatMap.mp hea
+    obtain ⟨a, _, hae⟩ := List.mem_map.mp hea'
+    simp only [Bool.decide_and, Bool.and_eq_true, decide_eq_true_eq, List.any_eq_true]
+    refine ⟨hns, e, he, ?_⟩
+    rw [← hae] at htg
+    exact htg
+  · rw [if_neg h]
+    exact ⟨[], rfl, fun hh => absurd hh h⟩
+
 /-- the condition under which a Pod add/update is repaired by the controller (`P` = the slices exempt
     before the write):
     * the pod GETS its IP with this write (it is new, or had none): every endpoint that refers to it carries that
@@ -338,8 +366,9 @@ def Refs (sl : Slice) (ns name : String) : Prop :=
       nothing: the slices that refer to it wait on (`WaitP`);
     * an update: `recomputeServiceForPod` is not reached (its early exit is finding
       `health-built-before-service-known`), and either labels, service account and node are unchanged (phase,
-      readiness, IP assignment, deletion timestamp are free) or no endpoint of a slice that is not exempt refers
-      to the pod (a pending pod that is bound to a node, relabelled, ... before the slice controller publishes
+      readiness, IP assignment, deletion timestamp are free), or node / service account change (then the slices of
+      the pod's namespace that refer to it are replayed: `queueEndpointEventsForPod`, whatever else changed), or no
+      endpoint of a slice that is not exempt refers to the pod (a pending pod that is bound to a node, relabelled, ... before the slice controller publishes
       it, or while the slices that refer to it wait for its IP) - findings
       `labels-built-before-pod-label-change`, `locality-built-before-node-change`, `identity-of-replaced-pod`
       otherwise. -/
@@ -347,7 +376,9 @@ def PodGood (c : Ctl) (P : Slice → Prop) (v : Pod) : Prop :=
   match findPod c.pods v.ns v.name with
   | none => v.ip = "" ∨ ∀ sl ∈ c.slices, ∀ ea ∈ sl.addrPairs, ea.1.target = some (v.ns, v.name) → ea.2 = v.ip
   | some o => NoRecompute c (some o) v ∧
-      (podSig o = podSig v ∨ ∀ sl ∈ c.slices, ¬ P sl → ∀ ea ∈ sl.addrPairs, ea.1.target ≠ some (v.ns, v.name)) ∧
+      (podSig o = podSig v ∨
+        ((o.node ≠ v.node ∨ o.sa ≠ v.sa) ∧ ∀ sl ∈ c.slices, ¬ P sl → Refs sl v.ns v.name → sl.ns = v.ns) ∨
+        ∀ sl ∈ c.slices, ¬ P sl → ∀ ea ∈ sl.addrPairs, ea.1.target ≠ some (v.ns, v.name)) ∧
       (o.ip = "" → v.ip ≠ "" → ∀ sl ∈ c.slices, ∀ ea ∈ sl.addrPairs, ea.1.target = some (v.ns, v.name) → ea.2 = v.ip)
 
 /-- Endpoint before pod, pod status changes, IP assignment: after a Pod add/update handled with the
@@ -382,18 +413,26 @@ theorem pod_write_inv (c : Ctl) (v : Pod) (c' : Ctl) (hph : v.phase ≠ "F") (hs
       · right; intro h2; exact hne ⟨(hx.1.symm.trans h1).symm, (hx.2.symm.trans h2).symm⟩
       · left; exact h1
   -- the event and its effect
-  have hev : ∃ old kind, runEvents c1 [podEvOf c v] = ((podEvent c1 old v kind).1, (podEvent c1 old v kind).2 ++ []) ∧
+  have hev : ∃ (old : Option Pod) (kind : PodEvKind) (kx : List String), runEvents c1 [podEvOf c v] =
+        ((podEvent c1 old v kind).1, kx.map Ev.replay ++ (podEvent c1 old v kind).2 ++ []) ∧
       kind ≠ .del ∧ (∀ o, old = some o → findPod c.pods v.ns v.name = some o) ∧
-      (old = none → findPod c.pods v.ns v.name = none) := by
+      (old = none → findPod c.pods v.ns v.name = none) ∧
+      (∀ o, old = some o → (o.node ≠ v.node ∨ o.sa ≠ v.sa) →
+        ∀ x ∈ c.slices, x.ns = v.ns → Refs x v.ns v.name → x.key ∈ kx) := by
     unfold podEvOf
     cases hfo : findPod c.pods v.ns v.name with
     | none =>
-      refine ⟨none, .add, ?_, by simp, by simp, fun _ => rfl⟩
+      refine ⟨none, .add, [], ?_, by simp, by simp, fun _ => rfl, by simp⟩
       simp [runEvents, handle, hfind]
     | some o =>
-      refine ⟨some o, .upd, ?_, by simp, by simp, by simp⟩
-      simp [runEvents, handle, hfind]
-  obtain ⟨old, kind, hrun, hkind, hold, holdn⟩ := hev
+      obtain ⟨kx, hkx, hkxm⟩ := idReplays_eq c1 o v
+      refine ⟨some o, .upd, kx, ?_, by simp, by simp, by simp, ?_⟩
+      · simp [runEvents, handle, hfind, hkx]
+      · intro o' ho'
+        injection ho' with ho'
+        rw [← ho']
+        exact hkxm
+  obtain ⟨old, kind, kx, hrun, hkind, hold, holdn, hkxm⟩ := hev
   have hnr : NoRecompute c1 old v := by
     cases old with
     | none => exact Or.inl rfl
@@ -402,7 +441,17 @@ theorem pod_write_inv (c : Ctl) (v : Pod) (c' : Ctl) (hph : v.phase ≠ "F") (hs
       unfold PodGood at hgood
       rw [hfo] at hgood
       exact hgood.1
-  obtain ⟨ks, hR, heff, htake, _⟩ := podEvent_eff c1 old v kind hnr
+  obtain ⟨ks0, hR0, heff0, htake0, _⟩ := podEvent_eff c1 old v kind hnr
+  -- all replays: those of the node / service account change, then those of the pod event
+  have hks : ∃ ks, ks = kx ++ ks0 := ⟨_, rfl⟩
+  obtain ⟨ks, hksd⟩ := hks
+  have hR : kx.map Ev.replay ++ (podEvent c1 old v kind).2 = ks.map Ev.replay := by
+    rw [hksd, List.map_append, hR0]
+  have heff : PodEff c1 (podEvent c1 old v kind).1 ks :=
+    heff0.mono (fun k hk => by rw [hksd]; exact List.mem_append_right _ hk)
+  have htake : kind ≠ .del → v.ip ≠ "" → ∀ k', setContains c1.resync v.ip k' = true → k' ∈ ks := by
+    intro h1 h2 k' h3
+    rw [hksd]; exact List.mem_append_right _ (htake0 h1 h2 k' h3)
   -- an exempt slice stays exempt or is replayed
   have hPk : ∀ x ∈ c.slices, P x → P' x ∨ x.key ∈ ks := by
     intro x hx hp
@@ -411,10 +460,10 @@ theorem pod_write_inv (c : Ctl) (v : Pod) (c' : Ctl) (hph : v.phase ≠ "F") (hs
     | inr h =>
       right
       have := podEvent_replays_waiting c1 old v kind hkind x.key h.2 h.1
-      rw [hR, List.mem_map] at this
+      rw [hR0, List.mem_map] at this
       obtain ⟨k', hk', he⟩ := this
       injection he with he
-      rw [← he]; exact hk'
+      rw [← he, hksd]; exact List.mem_append_right _ hk'
   have hrunAll : runAll c1 [podEvOf c v] = (runEvents (podEvent c1 old v kind).1 (ks.map Ev.replay)).1 := by
     show (runEvents (runEvents c1 _).1 (runEvents c1 _).2).1 = _
     rw [hrun]
@@ -483,9 +532,24 @@ theorem pod_write_inv (c : Ctl) (v : Pod) (c' : Ctl) (hph : v.phase ≠ "F") (hs
               refine ⟨hsig, ?_⟩
               simp only [podSig, Prod.mk.injEq] at hsig
               exact localityOf_congr _ _ _ hsig.2.2.2.2 hsig.2.2.1
-            | inr hun =>
+            | inr hrest =>
               exfalso
-              exact hun x hx hnp ea hea (by rw [htg, hsame.1, hsame.2])
+              have href : ea.1.target = some (v.ns, v.name) := by rw [htg, hsame.1, hsame.2]
+              cases hrest with
+              | inl hid =>
+                -- node / service account changed: the slice was replayed
+                have hxns := hid.2 x hx hnp ⟨ea, hea, href⟩
+                have hold' : old = some o := by
+                  cases old with
+                  | none => rw [holdn rfl] at hfo; cases hfo
+                  | some o' =>
+                    have := hold o' rfl
+                    rw [hfo] at this
+                    injection this with this
+                    rw [this]
+                have := hkxm o hold' hid.1 x hx hxns ⟨ea, hea, href⟩
+                exact hnk (Or.inr (by rw [hksd]; exact List.mem_append_left _ this))
+              | inr hun => exact hun x hx hnp ea hea href
         · rw [hother tns tn hsame]
       · intro ea hea htg
         rw [podByIP_empty _ _ _ _ (hnc x hx ea hea htg), podByIP_empty _ _ _ _ (hnc2 x hx ea hea htg)]
